@@ -28,8 +28,8 @@ REACH = [
     "insights/core/spec_factory.py::ContentProvider._clean_content",
 ]
 PLAN = {
-    "quick": {"shards": 4, "cases": 300, "timeout_s": 900, "min_evaluations": 1000,
-              "min_counters": {"child_results_compared": 8000, "application_orders_recorded": 8000, "empty_results_checked": 100}},
+    "quick": {"shards": 4, "cases": 1200, "timeout_s": 900, "min_evaluations": 4000,
+              "min_counters": {"child_results_compared": 32000, "application_orders_recorded": 32000, "empty_results_checked": 400}},
     "thorough": {"shards": 16, "cases": 600, "timeout_s": 3300, "min_evaluations": 9000,
                  "min_counters": {"child_results_compared": 400000}},
 }
